@@ -492,7 +492,6 @@ func textOf(t *Term, param string) bool {
 // (operator table, membership oracle, BETWEEN, ORDER BY comparator with NULL only for the untyped nil)
 func init() { register("C15", ruleC01CmpTable, ruleC01Membership, ruleC01Between, ruleC05LessTable) }
 
-
 func init() { register("C15", ruleC15DecimalText); register("C01", ruleC15DecimalText) }
 
 // ruleC15DecimalText: what "the number's decimal text" is.
